@@ -406,6 +406,36 @@ fn api_totality(src: &mut Src, st: &mut Stats, _env: &Env) -> CaseResult {
         }
         st.class("custom-signature-call");
     }
+    // 4. the value type's own accessors with any argument on any value (empty containers,
+    //    index 0 from the end, huge indexes, every comparator on every pair, printing)
+    {
+        use jmespath::ast::Comparator;
+        let vals = ["[]", "{}", "[1]", "[1, \"a\", null]", "{\"a\": 1}", "\"\"", "\"s\"", "0", "-0.0", "1.5", "18446744073709551615", "true", "null", "[[]]", "{\"\": {}}"];
+        let (t1, t2) = (*src.pick(&vals), *src.pick(&vals));
+        let idx = match src.below(4) {
+            0 => 0usize,
+            1 => src.below(4),
+            2 => usize::MAX - src.below(2),
+            _ => src.below(1 << 20),
+        };
+        let (a, b2, c) = (src.range(-3, 3) as i32, src.range(-3, 3) as i32, [1i32, -1, 2, -2, i32::MAX, i32::MIN + 1][src.below(6)]);
+        let key = label.clone();
+        let r = catch(std::panic::AssertUnwindSafe(move || {
+            let v = jmespath::Variable::from_json(t1).unwrap();
+            let w = jmespath::Variable::from_json(t2).unwrap();
+            let _ = (v.get_index(idx), v.get_negative_index(idx), v.get_field(&key), v.get_field(""), v.get_field("a"));
+            let _ = (v.is_truthy(), v.get_type().to_string(), v.as_array().map(|x| x.len()), v.as_object().map(|x| x.len()), v.as_string().cloned(), v.as_number(), v.as_boolean(), v.as_null(), v.is_expref());
+            let _ = v.slice(if a == 0 { None } else { Some(a) }, if b2 == 0 { None } else { Some(b2) }, c);
+            for op in [Comparator::Equal, Comparator::NotEqual, Comparator::LessThan, Comparator::LessThanEqual, Comparator::GreaterThan, Comparator::GreaterThanEqual] {
+                let _ = (v.compare(&op, &w), w.compare(&op, &v), v.compare(&op, &v));
+            }
+            let _ = (v.cmp(&w), v.partial_cmp(&w), v == w, format!("{} {:?}", v, w), serde_json::to_string(&v).is_ok());
+        }));
+        if let Err(p) = r {
+            return Err(Failure::new("api-totality", "panic", format!("a Variable accessor panicked: {}", p), json!({"value": t1, "other": t2, "index": idx, "slice": [a, b2, c]})));
+        }
+        st.class("variable-accessors");
+    }
     if !label.is_ascii() && st.nontrivial(&format!("{}|{}|{}", label, offset, text)) {
         st.sample(|| json!({"label": label, "offset": offset, "tree_of": text}));
     }
